@@ -5,6 +5,10 @@ import CookModel.Lemmas.DeterminismLocs
 import CookModel.Props.C16
 import CookModel.Lemmas.TableFacts
 import CookModel.Lemmas.TableSearch
+import CookModel.Analysis.RefCheck
+import CookModel.Analysis.MetaValidator
+import CookModel.Lemmas.LexLaws
+import CookModel.Lemmas.MetaFrontDiags
 /-
   C18  Parsing is deterministic, stateless across calls and thread-safe.
 
@@ -464,5 +468,191 @@ example : ((FM.processFrontmatter C18_w7FeOk (Text.fromStr "a: 1\n".toList 4)).d
             (["yaml-error"], none) := by decide
 example : parseFrontmatter C18_w7Cs C18_w7Input = some ⟨"a: 1\n".toList, 4, [], 13⟩ := by rfl
 -- ===== end w7reauditC =====
+
+-- ===== w12c18opts =====
+/-! ### `parse_with_options` in the history (wave 12)
+
+    The requests above are `parse` and `parse_metadata`.  `CooklangParser::parse_with_options` takes callbacks
+    (`ParseOptions::recipe_ref_check`, `ParseOptions::metadata_validator`); the harness (mode (g) of
+    harness/src/props/c18.rs) calls it with callbacks that depend on their arguments only, after other calls on the same
+    thread — seeded change C18-14 made such a call silently drop `recipe_ref_check` after a parse that had ended in a
+    parser error.  `ReqO` adds that request as a third alternative; `Req`, `Instance`, `Process` are unchanged.
+
+    The two callbacks are modelled separately (`RC.parseRecipeR` — Analysis/RefCheck.lean, operation `recipe_rc`;
+    `MV.parseRecipeV` — Analysis/MetaValidator.lean, operations `recipe_fm` / `metaonly_fm`); there is no tied model
+    function for ONE call with BOTH callbacks installed, so the options of a request are one of the two (`OptsO`).
+    A validator that depends on its arguments only is `SM.Y → SM.Y → FM.Verdict`; it is handed to the model as the
+    call-number-indexed family that ignores the number. -/
+
+/-- the options of one `parse_with_options` call, callbacks that depend on their arguments only: a `recipe_ref_check`
+    (or none) with the validator absent, or a `metadata_validator` (or none) with the reference check absent -/
+inductive OptsO where
+  | refCheck (chk : Option (Str → FM.CheckRes))
+  | validator (val : Option (SM.Y → SM.Y → FM.Verdict))
+
+/-- the validator of the options as the model functions take it (`none` for a reference-check call) -/
+def OptsO.val : OptsO → Option (Nat → SM.Y → SM.Y → FM.Verdict)
+  | .refCheck _ => none
+  | .validator val => val.map (fun f _ => f)
+
+/-- what `parse_with_options(input, opts)` returns on a parser with environment `env` -/
+def OptsO.reply (env : Env) : OptsO → Str → AnalysisResult α
+  | .refCheck chk, x => RC.parseRecipeR env chk x
+  | .validator val, x => MV.parseRecipeV env (val.map (fun f _ => f)) x
+
+/-- a request to a parser instance: `parse`, `parse_metadata` or `parse_with_options` -/
+inductive ReqO where
+  | parse (input : Str)
+  | parseMeta (input : Str)
+  | parseOpts (o : OptsO) (input : Str)
+
+/-- the requests without options are requests of the old kind -/
+def ReqO.ofReq : Req → ReqO
+  | .parse x => .parse x
+  | .parseMeta x => .parseMeta x
+
+def Instance.serveO (i : Instance) : ReqO → Instance × AnalysisResult α
+  | .parse x => ({ i with tableBuilt := true }, parseRecipe i.env x)
+  | .parseMeta x => ({ i with tableBuilt := true }, parseMetadata i.env x)
+  | .parseOpts o x => ({ i with tableBuilt := true }, o.reply i.env x)
+
+/-- on the requests without options `serveO` is `serve` -/
+theorem Instance.serveO_ofReq (i : Instance) (r : Req) : i.serveO (α := α) (.ofReq r) = i.serve (α := α) r := by
+  cases r <;> rfl
+
+def Instance.runReqsO (i : Instance) : List ReqO → Instance
+  | [] => i
+  | r :: rs => Instance.runReqsO ((i.serveO (α := α) r).1) rs
+
+theorem Instance.runReqsO_env (i : Instance) (h : List ReqO) : (Instance.runReqsO (α := α) i h).env = i.env := by
+  induction h generalizing i with
+  | nil => rfl
+  | cons r rs ih => cases r <;> simp [Instance.runReqsO, ih, Instance.serveO]
+
+/-- **`parse_with_options` in the history.**  After ANY history of requests of all three kinds (`parse`,
+    `parse_metadata`, `parse_with_options` with whatever argument-only callbacks), the reply to a request — in
+    particular to a `parse_with_options` with any reference check `chk` or any validator `val` — is the reply of a
+    fresh instance; and that reply is the one computed with the callback of THIS request (`RC.parseRecipeR env chk`,
+    `MV.parseRecipeV env val`), not with a callback or a "no callback" left behind by an earlier call. -/
+theorem C18_history_independent_options (i : Instance) (h : List ReqO) (r : ReqO) :
+    ((Instance.runReqsO (α := α) i h).serveO (α := α) r).2 = (({ i with tableBuilt := false } : Instance).serveO (α := α) r).2 ∧
+    (∀ chk x, r = .parseOpts (.refCheck chk) x →
+      ((Instance.runReqsO (α := α) i h).serveO (α := α) r).2 = RC.parseRecipeR i.env chk x) ∧
+    (∀ val x, r = .parseOpts (.validator val) x →
+      ((Instance.runReqsO (α := α) i h).serveO (α := α) r).2 = MV.parseRecipeV i.env (val.map (fun f _ => f)) x) := by
+  refine ⟨?_, ?_, ?_⟩
+  · cases r <;> simp [Instance.serveO, Instance.runReqsO_env]
+  · rintro chk x rfl; simp [Instance.serveO, Instance.runReqsO_env, OptsO.reply]
+  · rintro val x rfl; simp [Instance.serveO, Instance.runReqsO_env, OptsO.reply]
+
+/-- everything a caller sees of one call (front matter interpreted) for the three kinds of request.  For a
+    `parse_with_options` the validator `process_frontmatter` consults is the one of the OPTIONS of that call
+    (`OptsO.val`), not the one stored in `fe`. -/
+def fullReplyO (env : Env) (fe : FM.Env α) : ReqO → FullReply α
+  | .parse x => fullReplyOf fe (parseRecipe env x)
+  | .parseMeta x => fullReplyOf fe (parseMetadata env x)
+  | .parseOpts o x => fullReplyOf { fe with validator := o.val } (o.reply env x)
+
+theorem fullReplyO_ofReq (env : Env) (fe : FM.Env α) (r : Req) : fullReplyO env fe (.ofReq r) = fullReply env fe r := by
+  cases r <;> rfl
+
+/-- one call of any of the three kinds on parser number `k` of a process -/
+def Process.serveO (p : Process α) (k : Nat) (r : ReqO) : Process α × Option (FullReply α) :=
+  ({ p with tableBuilt := true }, p.parsers[k]?.map (fun e => fullReplyO e.1 e.2 r))
+
+/-- a history of calls of the three kinds on any of the parsers -/
+def Process.runO (p : Process α) : List (Nat × ReqO) → Process α
+  | [] => p
+  | c :: cs => Process.runO ((p.serveO c.1 c.2).1) cs
+
+theorem Process.runO_parsers (p : Process α) (h : List (Nat × ReqO)) : (p.runO h).parsers = p.parsers := by
+  induction h generalizing p with
+  | nil => rfl
+  | cons c cs ih => simp [Process.runO, ih, Process.serveO]
+
+/-- **Parser instances of one process do not influence each other, `parse_with_options` included.**  After ANY history
+    of `parse` / `parse_metadata` / `parse_with_options` calls (any argument-only callbacks) on ANY of the parsers of a
+    process, the reply of parser `k` to a request of any of the three kinds — result, whole report with the
+    front-matter diagnostics, metadata map, servings — is the reply of a fresh process that has only that parser and
+    has served nothing.  Excludes: options (or their absence) of an earlier call, on this or on another parser, that
+    survive into a later call. -/
+theorem C18_instances_independent_options (p : Process α) (h : List (Nat × ReqO)) (k : Nat) (r : ReqO)
+    (e : Env × FM.Env α) (hk : p.parsers[k]? = some e) :
+    ((p.runO h).serveO k r).2 = ((⟨[e], false⟩ : Process α).serveO 0 r).2 ∧
+    ((p.runO h).serveO k r).2 = some (fullReplyO e.1 e.2 r) := by
+  simp [Process.serveO, Process.runO_parsers, hk]
+/-! non-vacuity and the seeded scenario C18-14 on model output (values first obtained with `#eval`): a history with a
+    parse that ends in a parser-stage error and no output (`a ~{}` — a timer with neither name nor quantity), then a
+    `parse_with_options` WITHOUT a reference check, then a `parse_metadata`; afterwards `add @@pesto{}` with a callback
+    that rejects `pesto`. -/
+private def C18_w12Env : Env := ⟨toyCharSpec, ⟨Gen.EXT_COMPONENT_MODIFIERS⟩, fun _ => none, fun _ _ => .ok, fun c => [c], 0⟩
+private def C18_w12Chk : Str → FM.CheckRes := fun n => if n = "pesto".toList then .error else .ok
+private def C18_w12Bad : Str := "a ~{}\n".toList
+private def C18_w12Doc : Str := "add @@pesto{}\n".toList
+private def C18_w12Hist : List ReqO :=
+  [.parse C18_w12Bad, .parseOpts (.refCheck none) "x".toList, .parseMeta "y".toList]
+/-- a result as text: every diagnostic as `kind/stage/severity/labels`, then whether there is output -/
+private def C18_w12Show (r : AnalysisResult Rat) : List String × Bool :=
+  (r.diags.toList.map (fun d => d.kind ++ (if d.stage == .parse then "/parse" else "/analysis") ++
+      (if d.sev == .error then "/error" else "/other") ++
+      String.join (d.labels.map (fun l => s!"/{l.start}..{l.stop}"))),
+   r.output.isSome)
+
+private theorem C18_w12_fmBad : parseFrontmatter toyCharSpec C18_w12Bad = none := by decide
+private theorem C18_w12_fmDoc : parseFrontmatter toyCharSpec C18_w12Doc = none := by decide
+private theorem C18_w12_lexBad : lex toyCharSpec C18_w12Bad = lexFuel toyCharSpec 6 0 C18_w12Bad :=
+  lexFrom_eq_fuel _ _ _ _ (by decide)
+private theorem C18_w12_lexDoc : lex toyCharSpec C18_w12Doc = lexFuel toyCharSpec 14 0 C18_w12Doc :=
+  lexFrom_eq_fuel _ _ _ _ (by decide)
+
+/-- the first request of the history fails in the parser: one parser-stage error, no output -/
+example : C18_w12Show (parseRecipe C18_w12Env C18_w12Bad) =
+    (["timer-neither-name-nor-quantity/parse/error/3..5"], false) := by
+  unfold parseRecipe pullEvents
+  simp only [C18_w12Env, C18_w12_fmBad, C18_w12_lexBad]
+  decide +kernel
+/-- after that history the reference `@@pesto{}` still gets the callback's error (analysis stage, the span of the
+    component), and the recipe is produced; a plain `parse` of the same document reports nothing -/
+example : C18_w12Show ((Instance.runReqsO (α := Rat) ⟨C18_w12Env, false⟩ C18_w12Hist).serveO (α := Rat)
+      (.parseOpts (.refCheck (some C18_w12Chk)) C18_w12Doc)).2 =
+    (["recipe-not-found/analysis/error/4..13"], true) ∧
+    C18_w12Show ((Instance.runReqsO (α := Rat) ⟨C18_w12Env, false⟩ C18_w12Hist).serveO (α := Rat)
+      (.parse C18_w12Doc)).2 = ([], true) := by
+  simp only [Instance.serveO, Instance.runReqsO_env, OptsO.reply]
+  unfold RC.parseRecipeR parseRecipe pullEvents
+  simp only [C18_w12Env, C18_w12_fmDoc, C18_w12_lexDoc]
+  decide +kernel
+/-- the same on a process, asked through the second of two parsers -/
+example : (((⟨[(C18_w7Env, C18_w7FeOk), (C18_w12Env, C18_w7FeErr)], false⟩ : Process Rat).runO
+      (C18_w12Hist.map (fun q => (1, q)))).serveO 1
+      (.parseOpts (.refCheck (some C18_w12Chk)) C18_w12Doc)).2.map (fun f => C18_w12Show f.result) =
+    some (["recipe-not-found/analysis/error/4..13"], true) := by
+  simp only [Process.serveO, Process.runO_parsers, fullReplyO, fullReplyOf, OptsO.reply, List.getElem?_cons_succ,
+    List.getElem?_cons_zero, Option.map_some]
+  unfold RC.parseRecipeR pullEvents
+  simp only [C18_w12Env, C18_w12_fmDoc, C18_w12_lexDoc]
+  decide +kernel
+
+/-- **The reference check of a `parse_with_options` is consulted whatever happened before** (seeded C18-14: dropped
+    after a parse that ended in a parser error).  For every history `h` — in particular one that contains a `parse`
+    of an input `bad` whose report has a parser-stage error and which produced no recipe — the reply to
+    `parse_with_options(x, recipe_ref_check = chk)` is `RC.parseRecipeR env (some chk) x`, the analysis that calls `chk`
+    on every recipe reference it stores (`RC.afterIngredient`); so it differs from the reply without a check exactly
+    where `chk` says so.  Concretely (second part): with the toy character classes and component modifiers on, after
+    the history `a ~{}` (parser error, no output) / options without check / `parse_metadata`, the document
+    `add @@pesto{}` checked by a callback rejecting `pesto` has exactly the diagnostic `recipe-not-found`, an
+    analysis-stage error on the span 4..13 of the component, while a plain `parse` of it has none.
+    PARTIAL in one respect, hence not claimed here: a general "the report contains `chk`'s verdict for every recipe
+    reference of the input" needs a lemma about `RC.loopR` that Lemmas/RefCheck.lean does not have (it has the
+    one-event facts `rck_afterIngredient`, `rck_refDiag_iff`); see notes/audit-C18.md. -/
+theorem C18_ref_check_consulted_after_failed_parse (i : Instance) (h : List ReqO) (bad : Str)
+    (chk : Str → FM.CheckRes) (x : Str) :
+    ((Instance.runReqsO (α := α) i (.parse bad :: h)).serveO (α := α) (.parseOpts (.refCheck (some chk)) x)).2 =
+      RC.parseRecipeR i.env (some chk) x ∧
+    ((Instance.runReqsO (α := α) i (h ++ [.parse bad])).serveO (α := α) (.parseOpts (.refCheck (some chk)) x)).2 =
+      RC.parseRecipeR i.env (some chk) x := by
+  simp [Instance.serveO, Instance.runReqsO_env, OptsO.reply]
+
+-- ===== end w12c18opts =====
 
 end Cook
